@@ -278,6 +278,7 @@ func ReachableReturnsWithout(fn *ssa.Function, rets []*ssa.Return, removed []Ctr
 type Case struct {
 	If     *ssa.If
 	Key    ssa.Value // the operand the subject is compared with
+	Subj   ssa.Value // the subject operand itself
 	Target *ssa.BasicBlock
 	Else   *ssa.BasicBlock
 	Neg    bool // the comparison was != (Target is still the "equal" successor)
@@ -300,17 +301,17 @@ func EqCases(fn *ssa.Function, isSubject func(ssa.Value) bool) []Case {
 		if !ok || (cmp.Op != token.EQL && cmp.Op != token.NEQ) {
 			continue
 		}
-		var key ssa.Value
+		var key, subj ssa.Value
 		switch {
 		case isSubject(cmp.X):
-			key = cmp.Y
+			key, subj = cmp.Y, cmp.X
 		case isSubject(cmp.Y):
-			key = cmp.X
+			key, subj = cmp.X, cmp.Y
 		default:
 			continue
 		}
 		eq := (cmp.Op == token.EQL) == pos
-		c := Case{If: iff, Key: key, Neg: cmp.Op == token.NEQ}
+		c := Case{If: iff, Key: key, Subj: subj, Neg: cmp.Op == token.NEQ}
 		if eq {
 			c.Target, c.Else = b.Succs[0], b.Succs[1]
 		} else {
